@@ -115,7 +115,55 @@ def fl(j):
     return {"$unjson": repr(j)}
 
 
+_UNIONS = {}
+
+
+def _union_types():
+    """every union type a user can meet: in attribute types (through sequences / dicts / tuples / members) and among the keys the
+    hooks are registered under; keyed by its pty string"""
+    if _UNIONS:
+        return _UNIONS
+    import pyty
+    import cattrs
+    from lsprotocol import _hooks
+    found = []
+
+    def walk(t):
+        o = typing.get_origin(t)
+        if o is typing.Union:
+            if t not in found:
+                found.append(t)
+                for a in typing.get_args(t):
+                    walk(a)
+        elif o in (collections.abc.Sequence, list, dict, tuple):
+            for a in typing.get_args(t):
+                if a is not Ellipsis:
+                    walk(a)
+    for obj in T.ALL_TYPES_MAP.values():
+        if isinstance(obj, type) and attrs.has(obj):
+            for a in attrs.fields(obj):
+                walk(a.type)
+
+    class Rec(cattrs.Converter):
+        def register_structure_hook(self, cl, func=None):
+            if typing.get_origin(cl) is typing.Union:
+                walk(cl)
+            return super().register_structure_hook(cl, func)
+    try:
+        _hooks.register_hooks(Rec())
+    except Exception:
+        pass
+    for u in found:
+        try:
+            _UNIONS.setdefault(pyty.ty(u), u)
+        except Exception:
+            pass
+    return _UNIONS
+
+
 def target(name):
+    if name.startswith("("):
+        return _union_types()[name]
     if name in T.ALL_TYPES_MAP:
         return T.ALL_TYPES_MAP[name]
     return getattr(T, name)
